@@ -227,8 +227,10 @@ ExpFails(s, o) ==
   \cup (IF HdrOK(s, o) THEN {} ELSE {"hdr"})
   \cup (IF VirtualOK(s, d, o) THEN {} ELSE {"virtual"})
   \cup (IF NoShadow(s, d, o) THEN {} ELSE {"shadow"})
-  \cup (IF Closed(o) /\ ~KeysOK(s, o) THEN {"keys"} ELSE {})
-  \cup (IF Closed(o) /\ ~FlagsOK(s, o) THEN {"flags"} ELSE {})
+  \* (unlisted targets are skipped inside the two operators, so they are evaluated on an
+  \* observation that is not closed as well: a line that should be gone is still a wrong filing)
+  \cup (IF ~KeysOK(s, o) THEN {"keys"} ELSE {})
+  \cup (IF ~FlagsOK(s, o) THEN {"flags"} ELSE {})
   \cup (IF NbrsOK(s, d, o) THEN {} ELSE {"nbrs"})
   \cup (IF TypesOK(s, o) THEN {} ELSE {"etype"})
   \cup (IF ExternalsOK(s, o) THEN {} ELSE {"externals"})
